@@ -159,6 +159,12 @@ fn check_constant(c: &Constant, where_: &str, out: &mut CaseOut) {
         Constant::UInt8(n) => (n.view().storage().len(), 1),
     };
     let name = c.name().unwrap_or("<unnamed>");
+    if let Some((addr, align)) = misaligned_storage(c) {
+        out.fail(
+            "constant:misaligned-storage-pointer",
+            format!("{where_}: constant {name:?} shape {shape:?}: backing storage starts at address {addr:#x}, which is not aligned to {align} bytes; forming a slice over it is undefined behaviour even when it is empty"),
+        );
+    }
     let prod = u128_product(&shape);
     let prod_ok = prod == Some(backing as u128);
     match prod {
@@ -201,6 +207,24 @@ fn check_constant(c: &Constant, where_: &str, out: &mut CaseOut) {
             out.fail("constant:max-offset-out-of-bounds", format!("{where_}: scalar constant {name:?} has empty backing data"));
         }
     }
+}
+
+/// Address of the constant's backing storage if it is not aligned for the
+/// element type. A misaligned pointer makes every `slice::from_raw_parts`
+/// over the storage undefined behaviour, even for zero elements (builds with
+/// debug assertions abort on it). Only the pointer value is read here.
+pub fn misaligned_storage(c: &Constant) -> Option<(usize, usize)> {
+    let (addr, align) = match c {
+        Constant::Float(n) => (n.view().storage().as_ptr() as usize, std::mem::align_of::<f32>()),
+        Constant::Int32(n) => (n.view().storage().as_ptr() as usize, std::mem::align_of::<i32>()),
+        Constant::Int8(_) | Constant::UInt8(_) => return None,
+    };
+    (addr % align != 0).then_some((addr, align))
+}
+
+/// All constants of a graph (top level), sorted by node id.
+pub fn graph_constants(g: &Graph) -> Vec<&Constant> {
+    sorted_nodes(g).into_iter().filter_map(|(_, n)| n.as_constant()).collect()
 }
 
 fn sorted_nodes(g: &Graph) -> Vec<(NodeId, &Node)> {
